@@ -43,7 +43,8 @@ def make_motl(positions, groups, scores, field, rng, ids=None):
     for f in GROUP_FIELDS:
         cols[f] = np.ones(n)
     cols[field] = np.asarray(groups, dtype=float)
-    return cryomotl.Motl(motlutil.df_from_cols(cols)), cols
+    # the list may be a sorted / sampled / filtered table: its row labels need not be 0..N-1
+    return cryomotl.Motl(motlutil.vary_index(motlutil.df_from_cols(cols), rng.randrange(1000))), cols
 
 
 def run_clean(motl, cols, metric, scores, d, field, keep_greater):
@@ -202,7 +203,8 @@ def gen_peaks_case(rng, idx, smax):
     return {"kind": "peaks", "id": idx, "shape": shape, "seed": rng.randint(0, 10 ** 6),
             "numbering": rng.randint(0, 1), "order": rng.choice(["zxz", "zzx"]),
             "nsup": rng.choice([5, 40, 150, 400]), "k": rng.randint(1, 40), "blobs": rng.randint(0, 6),
-            "as_file": rng.random() < 0.5, "thr_mode": rng.choice(["quantile", "quantile", "zero", "negative"])}
+            "as_file": rng.random() < 0.5, "thr_mode": rng.choice(["quantile", "quantile", "zero", "negative"]),
+            "nangles": 23}
 
 
 def exec_peaks_case(ctx, case):
@@ -227,7 +229,7 @@ def exec_peaks_case(ctx, case):
         scores = scores - threshold + target
         threshold = target
     diameter = math.sqrt(case["k"] + 0.5)        # never the distance of two voxels (those are sqrt of integers)
-    m = 23
+    m = case.get("nangles", 23)          # fine angular sampling: lists of tens of thousands of orientations
     alist = np.round(np.column_stack([rs.uniform(-180, 180, m), rs.uniform(0, 180, m), rs.uniform(-180, 180, m)]), 3)
     amap = rs.randint(0, m, size=shape).astype(float) + case["numbering"]
     sig = {"op": "scores_extract_particles", "layer": "L3", "order": case["order"],
@@ -365,5 +367,9 @@ def run(ctx):
     for a in range(0, len(cases), 1000):
         run_l3(ctx, cases[a:a + 1000])
     pcases = [gen_peaks_case(ctx.rng, i + 1, ctx.pick(16, 40)) for i in range(ctx.pick(60, 300))]
+    for k, c in enumerate(pcases[:ctx.pick(2, 8)]):
+        # angle-map entries beyond 2^15 and 2^16 / 2 (a map of 40^3 voxels can index 64000 orientations)
+        c["nangles"] = [40000, 64000, 33000, 50000][k % 4]
+        c["nsup"] = min(c["nsup"], 150)
     for a in range(0, len(pcases), 200):
         run_l3(ctx, pcases[a:a + 200])
